@@ -605,6 +605,47 @@ def run_jit_process_history(ctx, i, rng):
         ctx.check(pn == jn, 'init:tree_structure:static_arg_decides_submodules', lambda: dict(case=desc, n=n, plain=pn, jitted=jn))
 
 
+def run_map_variables_init(ctx, i, rng):
+  """Identity nn.map_variables(..., init=True): applying it on the plain model's variables gives the plain output and updates,
+  whichever OTHER collections the call makes mutable (the mapped collection itself stays read-only at apply)."""
+  import jax
+  import jax.numpy as jnp
+  import flax.linen as nn
+  mut = [False, ['cnt'], ['cnt', 'other'], True][i % 4]
+  mapped = ['params', ('params',)][(i // 4) % 2]
+  trans_mutable = (i // 8) % 2 == 1
+  desc = dict(apply_mutable=repr(mut), mapped=repr(mapped), transform_mutable=trans_mutable)
+  with ctx.case('map_variables_init', i, desc, nontrivial=mut is not False):
+    class Inner(nn.Module):
+      @nn.compact
+      def __call__(self, x):
+        x = nn.Dense(2)(x)
+        c = self.variable('cnt', 'n', lambda: jnp.zeros(()))
+        if self.is_mutable_collection('cnt'):
+          c.value = c.value + 1.0
+        return x + c.value
+
+    class Outer(nn.Module):
+      lifted: bool
+
+      @nn.compact
+      def __call__(self, x):
+        cls = nn.map_variables(Inner, mapped, init=True, mutable=trans_mutable) if self.lifted else Inner
+        return cls(name='inner')(x)
+
+    x = jnp.asarray(np.random.default_rng(i).uniform(-1, 1, (1, 2)).astype(np.float32))
+    v0 = Outer(False).init(jax.random.key(i), x)
+    v0 = jax.tree_util.tree_map(lambda a: a + 0.5, v0)
+    want = Outer(False).apply(v0, x, mutable=mut)
+    try:
+      got = Outer(True).apply(v0, x, mutable=mut)
+    except Exception as e:  # noqa: BLE001
+      ctx.check(False, 'map_variables:init_true_apply_raises', dict(case=desc, error=repr(e)[:200]))
+      return
+    ctx.op('nn.map_variables(init=True) at apply')
+    ctx.check(close(want, got) and shapes(want) == shapes(got), 'map_variables:init_true_apply_differs', lambda: dict(case=desc))
+
+
 def run_history(ctx, i, rng):
   """Stale-trace probe: one lifted instance is called repeatedly while mutable / variable structure change; a sibling instance with
   a different attribute must not reuse the trace."""
@@ -1041,6 +1082,8 @@ def run(ctx):
   ctx.event('kinds_covered', len(KINDS))
   for i in ctx.indices(24 if ctx.tier == 'quick' else 160, 'rng'):
     run_rng(ctx, i, ctx.rng('rng', i))
+  for i in ctx.indices(16, 'map_variables_init'):
+    run_map_variables_init(ctx, i, ctx.rng('map_variables_init', i))
   for i in ctx.indices(18 if ctx.tier == 'quick' else 54, 'jit_process_history'):
     run_jit_process_history(ctx, i, ctx.rng('jit_process_history', i))
   for i in ctx.indices(24 if ctx.tier == 'quick' else 48, 'nested_adoption'):
